@@ -180,20 +180,29 @@ impl<U: TimeUnitTrait> DateTime<U> {
     where
         Self: From<CrDateTime<Utc>>,
     {
+        // the nanosecond unit only spans 1677-09-21 .. 2262-04-11: a date outside of it is a
+        // parse error, not a panic in the conversion from chrono
+        let checked = |cr_dt: NaiveDateTime| -> TResult<Self> {
+            if U::unit() == TimeUnit::Nanosecond && cr_dt.and_utc().timestamp_nanos_opt().is_none() {
+                tbail!(ParseError:"datetime out of range for nanosecond unit: {}", s)
+            }
+            Ok(cr_dt.into())
+        };
+        let midnight = |d: NaiveDate| d.and_hms_opt(0, 0, 0).unwrap();
         if let Some(fmt) = fmt {
             if let Ok(cr_dt) = NaiveDateTime::parse_from_str(s, fmt) {
-                Ok(cr_dt.into())
+                checked(cr_dt)
             } else if let Ok(cr_date) = NaiveDate::parse_from_str(s, fmt) {
-                Ok(cr_date.into())
+                checked(midnight(cr_date))
             } else {
                 tbail!(ParseError:"Failed to parse datetime from string: {}", s)
             }
         } else {
             for fmt in TIME_RULE_VEC.iter() {
                 if let Ok(cr_dt) = NaiveDateTime::parse_from_str(s, fmt) {
-                    return Ok(cr_dt.into());
+                    return checked(cr_dt);
                 } else if let Ok(cr_date) = NaiveDate::parse_from_str(s, fmt) {
-                    return Ok(cr_date.into());
+                    return checked(midnight(cr_date));
                 }
             }
             tbail!(ParseError:"Failed to parse datetime from string: {}", s)
